@@ -187,6 +187,7 @@ def run(prog, ctx):
         while isinstance(e, tuple) and e and e[0] == "cast":
             e = e[1]
         return e
+    _strip = strip
     n_dd = 0
     for f in [x for x in prog.fns.values() if not x.promoted and x.owner and x.owner.startswith("frequencies::reverse_purge_item_hash_map::ReversePurgeItemHashMap")]:
         sf = Sym(prog, f, ifconv=False)
@@ -214,7 +215,28 @@ def run(prog, ctx):
                     f.id, show(val), " / ".join("%s %s %s" % (show(moved), ">" if op == "Gt" else ">=", show(c)) for op, c in guards)), f.id, span)
             else:
                 res.undecided += 1
-    res.rule("C07.D", n_dd, 1, "back-shift state updates in the reverse-purge map")
+    # the back-shift scan runs to the next free slot (state 0); nothing else may end it
+    for f in [x for x in prog.fns.values() if not x.promoted and x.owner and x.owner.startswith("frequencies::reverse_purge_item_hash_map::ReversePurgeItemHashMap")]:
+        sf = Sym(prog, f, ifconv=False)
+        for header, body in sf.loops():
+            moves = [1 for (b, base, ie, val, span, _s) in C.buffer_stores(prog, f, "states") if b in body and C.is_bin(_strip(val), "Sub")]
+            if not moves:
+                continue
+            n_dd += 1
+            res.obligations += 1
+            bad = None
+            for x, cond, _ in C.loop_exits(prog, f, sf, header, body):
+                if cond is None:
+                    continue
+                c = cond
+                ok = c[0] == "bin" and c[1] in ("Eq", "Ne") and (C.const_of(c[2]) == 0 or C.const_of(c[3]) == 0) and "states" in show(c)
+                if not ok:
+                    bad = show(c)
+            if bad is None:
+                res.discharged += 1
+            else:
+                res.violate("C07.D", "C07.D|%s|scan" % f.id, "%s: the back-shift scan after a deletion can stop before the next free slot (exit condition %s)" % (f.id, bad[:120]), f.id)
+    res.rule("C07.D", n_dd, 2, "back-shift state updates and scan exits in the reverse-purge map")
 
     # ---------------- C07.S sizing formulas
     n_s = 0
